@@ -475,7 +475,15 @@ let fam_c09 tier r =
         [ (2, 2); (15, 15); (8, 6); (1, 8); (4, 2) ])
       (List.concat_map (fun a -> List.map (fun b -> (a, b)) (take_ops 7 states)) (take_ops 7 states))) in
   let n = if tier = "quick" then 200 else 10000 in
+  (* the child has exited but collecting its status fails (interrupted reap): it is still an exited
+     child, so a later poll for it reports the exit and a zero-timeout wait succeeds *)
+  let failed_reap = List.concat_map (fun mask ->
+      faults_in_ops ~lat:0 ~errnos:[ 4 ] (function OS (SWait _) -> true | _ -> false)
+        { sc_world = world_with [ [ a_write 1 3; a_exit 7 ] ];
+          sc_ops = [ new_ (); start (c 0); sleep 30; wait 1000; poll ~t:0 [ (0, mask) ]; poll ~t:0 [ (0, 8) ]; wait 0; destroy () ] })
+      [ 8; 10; 15 ] in
   [ { name = "C09/stream-states-x-options-x-masks"; exhaustive = true; scs = grid };
+    { name = "C09/exited-child-after-a-failed-reap"; exhaustive = true; scs = failed_reap };
     { name = "C09/two-sources"; exhaustive = true; scs = two };
     { name = "C09/random-histories"; exhaustive = false; scs = List.init n (fun k -> rand_history (split r k)) } ]
 
@@ -635,7 +643,18 @@ let fam_c13 tier r =
           { default_options with o_in = rd ~f:4 0 }; { default_options with o_in = rd ~p:"/tmp/f" 7 }; { default_options with o_in = rd ~p:"/tmp/f" 0 };
           { default_options with o_parent = true }; { default_options with o_discard = true } ])
       [ 0; 3 ] in
+  (* the same rules when the options arrive through run / run_ex: every combination of the four
+     shorthands, with and without an explicit stream setting *)
+  let through_run = List.concat_map (fun parent -> List.concat_map (fun discard -> List.concat_map (fun file -> List.concat_map (fun path ->
+      List.concat_map (fun out ->
+          let o = { default_options with o_parent = parent; o_discard = discard; o_file = z file; o_path = path; o_out = out } in
+          let w = world_with ~fds:user_fds ~files:user_files ~extra_fs:[ (s "/tmp/f", FFile) ] [ [ a_write 1 3; a_exit 0 ] ] in
+          [ { sc_world = w; sc_ops = [ ORun (c 0, o, nat_of_int 3000) ] };
+            { sc_world = w; sc_ops = [ ORunEx (c 0, o, [], [], nat_of_int 3000) ] } ])
+        [ rd 0; rd 1; rd 2 ])
+      [ None; Some (s "/tmp/g") ]) [ 0; 4 ]) [ false; true ]) [ false; true ] in
   [ { name = "C13/random-options-through-start"; exhaustive = false; scs = List.init n rr };
+    { name = "C13/shorthands-through-run"; exhaustive = true; scs = through_run };
     { name = "C13/start-up-input-x-kind-of-stdin"; exhaustive = true; scs = input_x_stdin };
     { name = "C13/file-redirects-on-standard-streams"; exhaustive = true; scs = std_files } ]
 
@@ -804,7 +823,18 @@ let fam_c16 tier r =
           { sc_world = world_with [ script ];
             sc_ops = [ new_ (); start ~opts:{ default_options with o_err = rd 1; o_deadline = z dl } (c 0); sleep pre; drain (); wait 1000; destroy () ] })
         [ 0; 30; 120 ]) [ 40; 100 ] in
+  (* fork mode: the forked child (no exec follows) closes its output streams and keeps running; the
+     parent's drain must see each stream close when the child closes it *)
+  let fork_closes = List.concat_map (fun script ->
+      List.map (fun errmode ->
+          let opts = { default_options with o_fork = true; o_err = rd errmode; o_deadline = z 4000 } in
+          { sc_world = world_with [ script ];
+            sc_ops = [ new_ (); start ~opts ~script None; drain (); wait 0; wait 1000; destroy () ] })
+        [ 1; 2; 4 ])
+      [ [ a_write 1 9; a_close 1; a_sleep 40; a_write 2 7; a_close 2; a_sleep 300; a_exit 5 ];
+        [ a_close 2; a_write 1 100; a_close 1; a_sleep 300; a_exit 0 ]; [ a_close 1; a_close 2; a_sleep 300; a_exit 1 ] ] in
   [ { name = "C16/drain-after-the-status-was-collected"; exhaustive = true; scs = after_wait };
+    { name = "C16/fork-mode-child-closes-its-streams"; exhaustive = true; scs = fork_closes };
     { name = "C16/drain-x-sinks-x-stderr-x-deadlines"; exhaustive = true; scs = grid };
     { name = "C16/endless-writer-x-deadlines"; exhaustive = true; scs = chatter };
     { name = "C16/exact-buffer-then-quiet"; exhaustive = true; scs = quiet };
@@ -851,7 +881,19 @@ let fam_c17 tier r =
             [ ("idle", [ a_sleep 150; a_exit 0 ]); ("err-writer", [ a_sleep 20; a_write 2 5; a_sleep 100; a_exit 0 ]) ])
         [ true; false ])
       [ (1, 1, 1); (1, 1, 3); (1, 3, 1); (1, 3, 3); (3, 1, 1); (3, 1, 3); (3, 3, 1); (3, 3, 3); (3, 3, 0); (0, 0, 1); (2, 2, 1); (3, 1, 4) ] in
+  (* a blocking read waits for its own child only: a sibling started afterwards (by exec or in fork
+     mode, where nothing closes inherited descriptors for it) must not hold the stream open *)
+  let sibling = List.concat_map (fun fork ->
+      List.map (fun nb ->
+          let o1 = { default_options with o_nonblocking = nb; o_err = rd 1 } in
+          let o2 = { default_options with o_fork = fork } in
+          { sc_world = world_with [ [ a_readall 0; a_write 1 10; a_readall 0; a_readall 0; a_exit 0 ]; [ a_sleep 600; a_exit 0 ] ];
+            sc_ops = [ new_ (); new_ ~h:1 (); start ~opts:o1 (c 0);
+                       (if fork then start ~h:1 ~opts:o2 ~script:[ a_sleep 600; a_exit 0 ] None else start ~h:1 ~opts:o2 (c 1));
+                       write 5; close 0; sleep 20; read 1 100; read 1 100; read 2 100; wait 100; destroy (); destroy ~h:1 () ] })
+        [ false; true ]) [ false; true ] in
   [ { name = "C17/pipe-states-x-sizes"; exhaustive = true; scs = grid };
+    { name = "C17/sibling-started-later"; exhaustive = true; scs = sibling };
     { name = "C17/which-streams-are-pipes"; exhaustive = true; scs = layouts };
     { name = "C17/start-up-input-with-small-pipes"; exhaustive = true; scs = small };
     { name = "C17/start-up-input-sizes"; exhaustive = true; scs = input } ]
